@@ -896,7 +896,18 @@ func (fv *FuncVerifier) evalAddr(st *State, x ast.Expr, t types.Type) Val {
 			}
 		}
 	case *ast.SelectorExpr:
-		// &p.f : interior pointer — not modelled precisely
+		// &p.f : interior pointer, modelled as a stable abstract address (addr.field base k); the pointee is
+		// NOT connected to the field's value (sound for opaque objects reached only through such pointers)
+		if sel, ok := fv.info().Selections[x]; ok && sel.Kind() == types.FieldVal && len(sel.Index()) == 1 {
+			if bt := fv.typeOf(x.X); bt != nil {
+				if _, isPtr := bt.Underlying().(*types.Pointer); isPtr {
+					base := fv.eval(st, x.X)
+					fv.eng.needFieldAddr()
+					fv.note("interior pointer &" + fv.exprText(x) + " is an abstract address (pointee not linked to the field value)")
+					return Val{T: fmt.Sprintf("(addr.field %s %d)", base.T, sel.Index()[0]), Ty: t}
+				}
+			}
+		}
 	case *ast.IndexExpr:
 	}
 	fv.unsupported("address-of " + fv.exprText(x))
